@@ -209,6 +209,11 @@ def _is_generator(fn):
     return False
 
 
+class OwnObject(str):
+    """a string token that stands for an object with an identity of its own: `is` compares it by identity, not by
+    value (plain string tokens stand for classes, of which there is one per name)"""
+
+
 class HostInterp:
     def __init__(self, cls_methods, self_obj, lookup_table, subtler_token="SUBTLER", globals_env=None, classes=None, functions=None):
         self.classes = classes or {}      # name -> {method name -> FunctionDef}: classes whose objects are interpreted
@@ -684,7 +689,7 @@ class HostInterp:
                 elif isinstance(op, ast.NotEq):
                     ok = left != right
                 elif isinstance(op, (ast.Is, ast.IsNot)):
-                    same = left is right or (isinstance(left, str) and isinstance(right, str) and left == right) or (isinstance(left, tuple) and isinstance(right, tuple) and len(left) == 2 and left[:1] == ("class",) and left == right)
+                    same = left is right or (isinstance(left, str) and isinstance(right, str) and not isinstance(left, OwnObject) and not isinstance(right, OwnObject) and left == right) or (isinstance(left, tuple) and isinstance(right, tuple) and len(left) == 2 and left[:1] == ("class",) and left == right)
                     ok = same if isinstance(op, ast.Is) else not same
                 elif isinstance(op, ast.In):
                     ok = left in right
